@@ -201,6 +201,12 @@ func (g *Generator) AdjustAnnotations(annotations map[string]string) error {
 			g.AddAnnotation(k, v)
 		}
 	}
+	// a set wins over a removal of the same key whatever the iteration order
+	for k, v := range annotations {
+		if _, marked := nri.IsMarkedForRemoval(k); !marked {
+			g.AddAnnotation(k, v)
+		}
+	}
 
 	return nil
 }
